@@ -215,7 +215,12 @@ impl ParsedFormula {
     }
 
     pub fn to_free_index(&self, ns: &NamedSymbol) -> usize {
-        self.raw2free[ns.id].unwrap_or_else(|| panic!("{} is not a free variable", ns))
+        // raw2free is filled per position in `vars`; ids need not be contiguous (custom variable orderings)
+        self.vars
+            .iter()
+            .position(|v| v == ns)
+            .and_then(|i| self.raw2free[i])
+            .unwrap_or_else(|| panic!("{} is not a free variable", ns))
     }
 
     pub fn extract_vars(tokens: &[SymbolicBDDToken]) -> Vec<NamedSymbol> {
